@@ -23,6 +23,14 @@ CHECKS['C17'] = (
     'Trusts vv/ref/paths.py. Walks are "defined" only if every prefix exists; dict-helper paths do not descend through non-dict leaves; '
     'update_in is only required to return the right dictionary.')
 
+CHECKS['C14'] = (
+    'Hypothesis-generated value trees: round-trip against a structural reference, plain-JSON predicate, idempotence, TypeError for a negative class',
+    'Generated search over nested trees of every supported type (and unsupported ones placed anywhere) through serialize_value, '
+    'deserialize_value and RAMEmitter; oracle is an independent structural expectation, so wrong conversions, lost recursion, '
+    'accepted bad keys or magnitude/unit drift are caught for any tree within the generated sizes.',
+    'Trusts pint to build and compare quantities. Excludes offset/log units, float32 magnitudes, >1-D quantity arrays and '
+    'plain strings of the reserved !units[...] form; a bare Unit is expected back as 1*unit; int magnitudes may come back as equal floats.')
+
 NOT_YET = 'check not built yet in this session (planned, see DESIGN.md section 8)'
 
 
